@@ -285,6 +285,9 @@ func RogueServerConn(proto string, chain [][]byte, keyPkcs8 []byte, holds, reque
 	return client
 }
 
+// ConnPair exposes the buffered duplex connection pair to harnesses that wire a real client to a real server.
+func ConnPair() (server, client net.Conn) { return connPair() }
+
 // connPair returns the two ends of a buffered duplex connection (a loopback TCP connection: net.Pipe is
 // unbuffered, and a TLS server that sends an alert while the client is still writing its flight deadlocks on it).
 func connPair() (server, client net.Conn) {
